@@ -435,7 +435,7 @@ def mw_describe(lines, viols, sp):
 
 
 def mw_consts(writers, aborters, rounds):
-    return ["Writers = " + tla_set(writers), "Aborters = " + tla_set(aborters), "ArmMayFail = TRUE", "Rounds = %d" % rounds]
+    return ["Writers = " + tla_set(writers), "Aborters = " + tla_set(aborters), "ArmMayFail = TRUE", "ClearMayFail = TRUE", "Rounds = %d" % rounds]
 
 
 MW_INV = ["INVARIANTS Clean LaterWritesSucceed NoSpuriousTimeout ArmedOnlyBlocked", "PROPERTY NoStuckWriter"]
